@@ -257,6 +257,49 @@ def run(repo: Repo, ctx) -> None:
     if not found:
         raise AnalysisError('C08.R2: volatility handler for MutatingStmt '
                             'not found')
+    # bindings carry a volatility computed with exclude_dml=True (DML counts
+    # as stable there); volatility inference must re-infer the binding
+    # expressions and never reuse that stored value
+    stored_excl = False
+    for mm in repo.modules_in('edb.edgeql.compiler'):
+        if mm is vol:
+            continue
+        for c in module_calls(mm).get('infer_volatility', []):
+            v = kwarg(c, 'exclude_dml')
+            if v is not None and norm(v) == 'True':
+                stored_excl = True
+    for fn in repo._funcs_of(vol):
+        for n in ast.walk(fn.node):
+            it = None
+            tgt = None
+            if isinstance(n, ast.For) and norm(n.iter).endswith('.bindings'):
+                it, tgt, scope = n.iter, n.target, n
+            elif isinstance(n, ast.comprehension) and norm(
+                    n.iter).endswith('.bindings'):
+                it, tgt, scope = n.iter, n.target, None
+            if it is None:
+                continue
+            second = None
+            if isinstance(tgt, ast.Tuple) and len(tgt.elts) == 2:
+                second = norm(tgt.elts[1])
+            ok = second == '_' or not stored_excl
+            if second not in (None, '_'):
+                # is the stored volatility actually used?
+                root = scope if scope is not None else fn.node
+                used = any(isinstance(x, ast.Name) and x.id == second
+                           and isinstance(x.ctx, ast.Load)
+                           for x in ast.walk(root))
+                ok = not used or not stored_excl
+            ctx.ob('C08.R2', f'volatility:{fn.name}:bindings', ok,
+                   f'{fn.name} reuses the volatility stored beside a WITH '
+                   f'binding; that value is computed with exclude_dml=True '
+                   f'(DML counted as stable), so a function body that '
+                   f'writes only inside a WITH binding is not inferred '
+                   f'Modifying and its calls carry no MODIFICATIONS',
+                   f'{fn.module.rel()}:{it.lineno}',
+                   sample='binding expressions re-inferred (stored value '
+                          'ignored)')
+
     sf = repo.module('edb.schema.functions')
     cmp_ok = False
     for n in ast.walk(sf.tree):
